@@ -116,3 +116,95 @@ Qed.
 
 Lemma jprint_arr_head l : exists r, jprint (JArr l) = 91 :: r.
 Proof. simpl. eauto. Qed.
+
+(** * String literals *)
+(** Checking a property of all bytes below 128 by computation. *)
+Lemma below128 (P : N -> bool) :
+  forallb P (map N.of_nat (seq 0 128)) = true -> forall b, b < 128 -> P b = true.
+Proof.
+  intros H b Hb. rewrite forallb_forall in H. apply H.
+  apply in_map_iff. exists (N.to_nat b). split; [lia|]. apply in_seq. lia.
+Qed.
+
+(** The escape of a byte of 128 and above is the byte itself. *)
+Lemma esc_hi b : 128 <= b -> esc b = [b].
+Proof.
+  intros H. unfold esc.
+  assert (E : forall k, k < 128 -> (b =? k) = false) by (intros; apply N.eqb_neq; lia).
+  rewrite !E by lia. assert (L : (b <? 32) = false) by (apply N.ltb_ge; lia). rewrite L. reflexivity.
+Qed.
+
+(** Running the string machine over a chunk that does not end the string. *)
+Fixpoint run (st : sst) (s : bytes) : option (sst * bytes) :=
+  match s with
+  | [] => Some (st, [])
+  | c :: r =>
+    match step st c with
+    | SGo st' out => match run st' r with Some (st2, o) => Some (st2, out ++ o) | None => None end
+    | _ => None
+    end
+  end.
+
+Lemma run_pstr : forall a st st' o r,
+  run st a = Some (st', o) ->
+  pstr st (a ++ r) = match pstr st' r with Some (o2, rest) => Some (o ++ o2, rest) | None => None end.
+Proof.
+  induction a as [|c a IH]; intros st st' o r H; simpl in H.
+  - inversion H; subst. simpl. destruct (pstr st' r) as [[o2 rest]|]; reflexivity.
+  - simpl. destruct (step st c) as [| |st1 out]; try discriminate.
+    destruct (run st1 a) as [[st2 o1]|] eqn:R; [|discriminate]. inversion H; subst.
+    rewrite (IH _ _ _ r R). destruct (pstr st' r) as [[o2 rest]|]; [|reflexivity].
+    now rewrite app_assoc.
+Qed.
+
+Lemma esc_run b : run SN (esc b) = Some (SN, [b]).
+Proof.
+  destruct (N.ltb_spec b 128) as [L|L].
+  - pose (P := fun b => match run SN (esc b) with
+                        | Some (SN, [x]) => x =? b
+                        | _ => false
+                        end).
+    assert (G : P b = true).
+    { apply (below128 P); [vm_compute; reflexivity|exact L]. }
+    unfold P in G. destruct (run SN (esc b)) as [[[| |] [|x [|y o]]]|]; try discriminate.
+    apply N.eqb_eq in G. now subst.
+  - rewrite esc_hi by exact L. simpl.
+    assert (E : forall k, k < 128 -> (b =? k) = false) by (intros; apply N.eqb_neq; lia).
+    rewrite !E by lia. assert (L2 : (b <? 32) = false) by (apply N.ltb_ge; lia). rewrite L2. reflexivity.
+Qed.
+
+Lemma pq_unfold b r :
+  pq (b :: r) =
+  match r with
+  | c :: d :: r' =>
+    if is_lsep b c d then [92; 117; 50; 48; 50; (if d =? 168 then 56 else 57)] ++ pq r'
+    else esc b ++ pq r
+  | _ => esc b ++ pq r
+  end.
+Proof. destruct r as [|c [|d r']]; reflexivity. Qed.
+
+(** The inside of a string literal written by [jprint], then the closing quote, reads back. *)
+Theorem pstr_pq : forall s rest, pstr SN (pq s ++ 34 :: rest) = Some (s, rest).
+Proof.
+  intros s. remember (length s) as n eqn:Hn. revert s Hn.
+  induction n as [n IH] using lt_wf_ind. intros s Hn rest.
+  destruct s as [|b r]; [reflexivity|].
+  assert (Plain : (forall r0, (length r0 < n)%nat -> forall rest, pstr SN (pq r0 ++ 34 :: rest) = Some (r0, rest)) ->
+                  pstr SN ((esc b ++ pq r) ++ 34 :: rest) = Some (b :: r, rest)).
+  { intros IH'. rewrite <- app_assoc. rewrite (run_pstr _ _ _ _ _ (esc_run b)).
+    rewrite IH' by (subst; simpl; lia). reflexivity. }
+  assert (IH' : (forall r0, (length r0 < n)%nat -> forall rest, pstr SN (pq r0 ++ 34 :: rest) = Some (r0, rest))).
+  { intros r0 L rest0. eapply IH; eauto. }
+  rewrite pq_unfold. destruct r as [|c [|d r']]; try (apply Plain; exact IH').
+  destruct (is_lsep b c d) eqn:LS; [|apply Plain; exact IH'].
+  unfold is_lsep in LS. apply andb_true_iff in LS as [LS L3]. apply andb_true_iff in LS as [L1 L2].
+  apply N.eqb_eq in L1. apply N.eqb_eq in L2. subst b c.
+  rewrite <- app_assoc.
+  apply orb_true_iff in L3 as [L3|L3]; apply N.eqb_eq in L3; subst d.
+  - change (168 =? 168) with true. cbv iota.
+    rewrite (run_pstr [92; 117; 50; 48; 50; 56] SN SN [226; 128; 168]) by (vm_compute; reflexivity).
+    rewrite IH' by (subst; simpl; lia). reflexivity.
+  - change (169 =? 168) with false. cbv iota.
+    rewrite (run_pstr [92; 117; 50; 48; 50; 57] SN SN [226; 128; 169]) by (vm_compute; reflexivity).
+    rewrite IH' by (subst; simpl; lia). reflexivity.
+Qed.
